@@ -36,15 +36,19 @@ CHECKS = {
    note=TB + "Completeness (derivable => accepted) is exhaustive-to-bound (quick: length 6, thorough: 9), not a theorem; known findings C02:string-element-mismatch-line and C02:parser-stack-limit are reproduced by the model.",
    technique='LR soundness theorem over translated LALR tables (kernel-decided certificate check + loop invariant) in Lean 4; exhaustive-to-bound correspondence against an independent grammar recogniser', ref='§5 C02'),
  'C04': dict(
-   text=("Theorem C04_step: every API operation other than a read, with arbitrary arguments, preserves the well-formedness invariant "
-         "(root nameless group; distinct valid member names; nameless list/array elements; arrays of scalars of one type; scalars have no "
-         "children), C04_init, C04_history (induction over the history), query agreement lemmas (length / element / member), and "
-         "C04_wfb_iff (the executable check equals the proposition). Proved for all trees and all argument values, no bound. The model's "
-         "API functions are tied to lib/libconfig.c by the correspondence harness (shape projection) and a C implementation of the "
-         "invariant walks the real structs (parent/config back-pointers, index agreement) after every history."),
-   note=TB + "Reads are covered by correspondence + the executable invariant check on the model and the real tree after every read, not yet by a theorem "
-        "(the parser-level invariant needs the grammar link of C02).",
-   technique='invariant proved by induction over operations in Lean 4; hand-written model tied by differential correspondence',
+   text=("Theorems: C04_step_all — EVERY operation of the API alphabet, reads included, with arbitrary arguments, succeeding or failing, "
+         "preserves the well-formedness invariant (root nameless group; distinct valid member names; nameless list/array elements; arrays "
+         "of scalars of one type; scalars have no children); C04_read — whatever bytes are read from whatever source, whatever the outcome "
+         "(syntax error, duplicate, mismatched element, include error, stack exhaustion), the configuration left behind is well-formed "
+         "(invariant over the parser loop: a tree invariant on ctx->parent/ctx->setting preserved by every grammar action, plus one "
+         "kernel-decided fact about the translated LALR automaton — the actions that write through ctx->setting only run while a `$@1` "
+         "entry is on the stack); C04_init, C04_history_all (induction over the history), query agreement lemmas (length / element / "
+         "member), C04_wfb_iff (the executable check equals the proposition), C04_type_codes (bridge). No bound on trees, arguments or "
+         "history length. The model's API functions are tied to lib/libconfig.c by correspondence (shape projection; every history over a "
+         "16-op alphabet up to length 3/4 plus long random histories) and a C implementation of the invariant walks the real structs "
+         "(parent/config back-pointers, index and member-lookup agreement) — also as a probe on every shrunk disagreement."),
+   note=TB + "Back-pointers (parent, config) are derived in the model; they are checked on the real structs by the harness.",
+   technique='invariant proved by induction over operations and over the parser loop in Lean 4 (with a kernel-decided automaton fact); hand-written model tied by differential correspondence',
    ref='§5 C04'),
  'C05': dict(
    text=("Refinement theorems (remove by path deletes exactly the addressed setting; add appends/overrides as the ordered-tree specification "
